@@ -101,7 +101,7 @@ Record outcome (sp : spec) (k : kind) (u : updfn) (w w' : world) (e wr : bool) :
            (st_phase (v_st w) = PhNone /\ w_st w' = init_status sp (v_st w));
   oc_fault : e = true -> w_st w' = w_st w \/ (st_phase (v_st w) = PhNone /\ w_st w' = init_status sp (v_st w));
   oc_silent : wr = false -> w_st w' = w_st w;
-  oc_spec : v_spec w' = v_spec w /\ w_spec w' = w_spec w
+  oc_spec : w_spec w' = w_spec w
 }.
 
 Lemma kept_core_refl : forall s, kept_core s s.
